@@ -59,7 +59,10 @@ func (f *Fact) GetPV() int64 { v := f.P.V; f.logCall("GetPV", []interface{}{}, v
 func (f *Fact) Sum(a, b int64) int64 { f.logCall("Sum", []interface{}{a, b}, a+b); return a + b }
 
 // Heavy is pure and "expensive": the counted method of C13.
-func (f *Fact) Heavy(a int64) int64 { r := a*2 + 1; f.logCall("Heavy", []interface{}{a}, r); return r }
+func (f *Fact) Heavy(a int64) int64 { r := a * 2; f.logCall("Heavy", []interface{}{a}, r); return r }
+
+// HeavyB is its boolean sibling (false for 0 and 1: zero-valued results are results too).
+func (f *Fact) HeavyB(a int64) bool { r := a > 1; f.logCall("HeavyB", []interface{}{a}, r); return r }
 
 // IsPos is pure.
 func (f *Fact) IsPos(a int64) bool { f.logCall("IsPos", []interface{}{a}, a > 0); return a > 0 }
